@@ -298,6 +298,12 @@ class KernExporter(object):
                     + " "
                     + kern_el
                 )
+            elif self.out_data[self.prev_note_row_idx, col_idx] != ".":
+                # Same row (start.t), a spline that already holds a note of this time point:
+                # join the chord (the notes of a spline need not be consecutive in the timeline)
+                self.out_data[self.prev_note_row_idx, col_idx] = (
+                    self.out_data[self.prev_note_row_idx, col_idx] + " " + kern_el
+                )
             else:
                 # Same row (start.t) other spline
                 self.out_data[self.prev_note_row_idx, col_idx] = kern_el
